@@ -17,7 +17,7 @@ from ..refmodels import weighted_quantile_ok
 from ..runner import Check
 
 P = 'C07'
-PRIORS = ['uniform', 'normal', 'child-norm', 'child-unif', 'child-scale']
+PRIORS = ['uniform', 'normal', 'child-norm', 'child-unif', 'child-scale', 'custom-unif', 'child-custom-unif']
 
 
 def strat(tier):
@@ -46,10 +46,32 @@ def strat_large(tier):
     })
 
 
+_CU = None
+
+
+def _custom_unif():
+    """A user-defined prior in the style of elfi's MA2 example: an elfi.Distribution subclass with rvs and pdf only (the log
+    density is the inherited default), bounded support."""
+    global _CU
+    if _CU is None:
+        import elfi
+
+        class CustomUnif(elfi.Distribution):
+            def rvs(loc, scale, size=1, random_state=None):
+                return ss.uniform.rvs(loc, scale, size=size, random_state=random_state)
+
+            def pdf(x, loc, scale):
+                return ss.uniform.pdf(x, loc, scale)
+        _CU = CustomUnif
+    return _CU
+
+
 def _kinds(case):
     out = []
     for i, pn in enumerate(case['pnames']):
         k = case['priors'][i]
+        if k == 'child-custom-unif' and i == 0:
+            k = 'custom-unif'
         if k.startswith('child') and i == 0:
             k = 'normal'
         if k == 'child-scale' and out[-1] != 'uniform':
@@ -71,6 +93,10 @@ def build(case):
             p = elfi.Prior('norm', ps[-1], 0.5, model=m, name=pn)
         elif k == 'child-scale':
             p = elfi.Prior('norm', 0, ps[-1], model=m, name=pn)        # the bounded parent is the child's scale
+        elif k == 'custom-unif':
+            p = elfi.Prior(_custom_unif(), 0, 1, model=m, name=pn)
+        elif k == 'child-custom-unif':
+            p = elfi.Prior(_custom_unif(), ps[-1], 1, model=m, name=pn)
         else:
             p = elfi.Prior('uniform', ps[-1], 1, model=m, name=pn)
         ps.append(p)
@@ -91,7 +117,7 @@ def prior_logpdf(case, names, th):
     with np.errstate(all='ignore'):
         for pn, k in zip(case['pnames'], _kinds(case)):
             x = col[pn]
-            if k == 'uniform':
+            if k in ('uniform', 'custom-unif'):
                 v = ss.uniform(0, 1).logpdf(x)
             elif k == 'normal':
                 v = ss.norm(0, 2).logpdf(x)
@@ -217,7 +243,7 @@ def run_case(case):
                 k = int(np.flatnonzero(ok)[np.argmax(np.abs(w[ok] - wref[ok]) / wref[ok])])
                 raise Violation('C07:importance-weights', 'population %d particle %d has weight %r, prior density / mixture density of the previous population is %r (ratio %.6g); %s'
                                 % (i, k, w[k], wref[k], w[k] / wref[k], ctx))
-    bounded = any(k in ('uniform', 'child-unif', 'child-scale') for k in _kinds(case))
+    bounded = any(k in ('uniform', 'child-unif', 'child-scale', 'custom-unif', 'child-custom-unif') for k in _kinds(case))
     hier = any(k.startswith('child') for k in _kinds(case))
     if bounded:
         labels.append('bounded-prior')
